@@ -329,8 +329,11 @@ def symbolic_getattr(interp, obj, name, default=None):
     none = z3.Not(z3.Or(*conds)) if conds else z3.BoolVal(True)
     i = eng.fork(conds + [none])
     if i == len(cands):
-        if type(obj).__dict__.get("__getattr__") is not None or any("__getattr__" in k.__dict__ for k in type(obj).__mro__):
-            raise Unmodelled("symbolic attribute name on an object with __getattr__")
+        ga = interp._find_dunder(type(obj), "__getattr__")
+        if ga is not None:
+            if interp.interpretable(ga):
+                return interp.call_value(ga, (obj, name), {})
+            raise Unmodelled("symbolic attribute name on an object with a native __getattr__")
         if default:
             return default[0]
         raise AttributeError("'%s' object has no attribute <symbolic>" % type(obj).__name__)
@@ -862,6 +865,12 @@ def install(interp):
                "isbuiltin", "isroutine", "isgeneratorfunction", "iscoroutine", "isawaitable"):
         interp.models[getattr(inspect, nm)] = _shape_only(getattr(inspect, nm))
     interp.models[id] = _shape_only(id)
+    import json
+
+    def m_json_dumps(interp_, args, kwargs):
+        USED.add("json.dumps(symbolic) -> opaque text")
+        return opaque_text("json", 8, [(0x20, 0x7E)])     # json.dumps output is ASCII (ensure_ascii)
+    interp.models[json.dumps] = m_json_dumps
     import weakref
     interp.models[weakref.finalize] = _shape_only(weakref.finalize)     # only stores its arguments
     a = interp.always
